@@ -519,18 +519,21 @@ def _r123c(ctx: Ctx) -> None:
                    key=f'{cname}._run|append[{key}]')
 
 
-def _r124(ctx: Ctx) -> None:
+def _r124(ctx: Ctx, rule: str = 'R12.4', fresh: bool = False) -> None:
+    """fresh=True: only runs that start from nothing (what a task of a parallel run does), targets from 1 trial up."""
     m = ctx.model
     ci = m.cls('BatchSimulation')
     mi = ci.module
     fn = ci.methods.get('_run')
-    ctx.need(fn is not None, 'R12.4', site_of(mi, ci.node), 'BatchSimulation._run not found')
+    ctx.need(fn is not None, rule, site_of(mi, ci.node), 'BatchSimulation._run not found')
     site = site_of(mi, fn)
     configs = []
     targets = (1, 2, 3, 4, 6, 9) if ctx.tier == 'thorough' else (1, 4, 6)
+    if fresh:
+        targets = (1, 2, 3, 5)
     for n_trials in targets:
-        loads = [(0, 0), (2, 2), (1, 3), (3, 0), (n_trials, n_trials), (n_trials + 2, 1)]
-        if ctx.tier == 'thorough':
+        loads = [(0,), (0, 0), (0, 0, 0)] if fresh else [(0, 0), (2, 2), (1, 3), (3, 0), (n_trials, n_trials), (n_trials + 2, 1)]
+        if ctx.tier == 'thorough' and not fresh:
             loads += [(0,), (0, 1, 2), (n_trials - 1, 0, n_trials + 1), (5, 5, 5)]
             loads = [tuple(max(0, x) for x in l) for l in loads]
         for loaded in loads:
@@ -563,8 +566,8 @@ def _r124(ctx: Ctx) -> None:
                              '_output_file': 'out.json'})
             it.call_closure(Closure(fn, mi, ci), [n_trials], {}, fn, self_obj=o)
             return list(log), tuple(s.n for s in sims)
-        outs = guard('R12.4', mi, fn)(lambda: it.explore(thunk))
-        ctx.need(len(outs) == 1 and outs[0].kind == 'return', 'R12.4', site, f'_run{(n_trials, loaded, sf)}: {outs!r}')
+        outs = guard(rule, mi, fn)(lambda: it.explore(thunk))
+        ctx.need(len(outs) == 1 and outs[0].kind == 'return', rule, site, f'_run{(n_trials, loaded, sf)}: {outs!r}')
         events, final = outs[0].value
         bad = None
         want = tuple(max(n, n_trials) for n in loaded)
@@ -593,8 +596,9 @@ def _r124(ctx: Ctx) -> None:
         if bad:
             n_bad += 1
             first_bad = first_bad or f'target {n_trials}, loaded {loaded}, save_frequency {sf}: {bad}'
-    ctx.ob('R12.4', site, f'BatchSimulation._run: exact trial accounting and final save over {len(configs)} configurations',
-           n_bad == 0, first_bad or '', key='BatchSimulation._run|accounting',
+    ctx.ob(rule, site, f'BatchSimulation._run: exact trial accounting and final save over {len(configs)} configurations'
+                       + (' starting from nothing' if fresh else ''),
+           n_bad == 0, first_bad or '', key='BatchSimulation._run|accounting' + ('[fresh]' if fresh else ''),
            facts={'configurations': len(configs), 'failing': n_bad})
 
 
